@@ -31,7 +31,7 @@ open_("D23", "C03", "in a session a multi-row INSERT whose 2nd row violates a co
 open_("D7", "C03", "any UPDATE of a table that has a PRIMARY KEY / UNIQUE index fails with 'datatype mismatch ... BigUInt'", "O-res", "history_contains_update", "findings/D7-update-on-table-with-unique-index.json")
 open_("D24", "C03", "UPDATE of a column of a PRIMARY KEY table fails with 'unexpected data type: Int'", "O-res", "history_contains_update", "findings/D24-update-of-column-on-pk-table.json")
 open_("D25", "C03", "after UPDATE, a DELETE followed by a read in the same transaction shows the pre-update version again", "O-res", "history_contains_update", "findings/D25-own-delete-after-update-shows-old-version.json")
-open_("F1", "C03", "INSERT of NULL into a PRIMARY KEY/UNIQUE column fails only after the row was stored: the row stays and a later committed insert is lost", "O-state", "null_into_unique_column", "findings/F1-null-into-unique-column-leaves-row.json")
+fixed("F1", "C03", "fe2afc8", "INSERT of NULL into a PRIMARY KEY/UNIQUE column failed only after the row was stored: the row stayed and a later committed insert was lost", "O-state", "findings/F1-null-into-unique-column-leaves-row.json")
 open_("F3", "C03", "with more than three relations (tables + indexes) concurrent inserts corrupt catalog rows: 'table not found', panics or process abort", "O-res", "more_than_3_relations", "findings/F3-many-relations-concurrent-catalog-updates.json")
 
 # ---- open findings: constraints (C07) ----
@@ -42,7 +42,7 @@ open_("U3", "C07", "a transaction that deletes a row and re-inserts its UNIQUE k
 for prop in ("C07",):
     open_("D5", prop, "UPDATE inside an open transaction is visible to other transactions at once (and survives ROLLBACK)", "O-res", "update_inside_session", "findings/D5-update-in-session-visible-to-others.json")
     open_("D7", prop, "any UPDATE of a table that has a PRIMARY KEY / UNIQUE index fails with 'datatype mismatch ... BigUInt'", "O-res", "history_contains_update", "findings/D7-update-on-table-with-unique-index.json")
-    open_("F1", prop, "INSERT of NULL into a PRIMARY KEY/UNIQUE column fails only after the row was stored: the row stays and a later committed insert is lost", "O-state", "null_into_unique_column", "findings/F1-null-into-unique-column-leaves-row.json")
+    fixed("F1", prop, "fe2afc8", "INSERT of NULL into a PRIMARY KEY/UNIQUE column failed only after the row was stored: the row stayed and a later committed insert was lost", "O-state", "findings/F1-null-into-unique-column-leaves-row.json")
 
 # ---- open findings: VACUUM (C13) ----
 fixed("D14", "C13", "cc4fedb", "VACUUM removed a row whose DELETE had been rolled back (or was still pending: VACUUM aborts it)", "O-state", "findings/D14-vacuum-removes-row-whose-delete-was-rolled-back.json")
@@ -53,7 +53,6 @@ open_("V1", "C13", "statements executed in a session after VACUUM aborted its tr
 
 # ---- open findings: DDL (C15) ----
 open_("X1", "C15", "CREATE UNIQUE INDEX inside an open transaction makes the table unusable for every other transaction ('Table not found N') until it commits", "O-res", "create_index_inside_session", "findings/X1-create-index-in-session-breaks-table-for-others.json")
-open_("X2", "C15", "CREATE UNIQUE INDEX on a column that holds a NULL fails with a type error", "O-res", "null_in_unique_column", "findings/X2-create-index-on-column-with-null-fails.json")
 open_("D16", "C15", "ALTER TABLE ... ADD COLUMN always fails ('Column with name ... was not found in schema')", "O-res", "history_contains_alter", "findings/D16-alter-add-column-fails.json")
 open_("D17", "C15", "ALTER TABLE ... DROP COLUMN of a middle column leaves every existing row unreadable ('Unexpected EOF')", "O-state", "history_contains_alter", "findings/D17-alter-drop-column-leaves-rows-unreadable.json")
 open_("D6", "C15", "DROP TABLE inside a session destroys the table before commit (tree deallocated at statement time)", "O-state", "drop_table_inside_session", "findings/D6-drop-table-in-session-destroys-table.json")
